@@ -350,6 +350,12 @@ def r6_boundary_checks_look_at_the_boundary(ctx):
     ctx.floor('C20.R6', 'boundary violations constructed in validate', n, 2)
 
 
+def r7_guard_reaches_the_compiler_as_written(ctx):
+    from .c19 import r11_strings_recorded_as_given
+    r11_strings_recorded_as_given(ctx, 'C20.R7', 'Domain.domain', 'shared with C19.R11 (the domain guard only) — `DomainGuard::new` validates what it is handed; the builder must hand it '
+                                  'what the user wrote. ')
+
+
 def check(ctx):
     r1_validated_constructor(ctx)
     r2_one_pattern_source(ctx)
@@ -357,3 +363,4 @@ def check(ctx):
     r4_identifier_oracle(ctx)
     r5_one_numbering(ctx)
     r6_boundary_checks_look_at_the_boundary(ctx)
+    r7_guard_reaches_the_compiler_as_written(ctx)
